@@ -244,17 +244,23 @@ def run(ctx):
     def fixed(expr, model, dims):
         trees.append(T(expr, model, dims, None, 1))
     L = lambda n: ["L", unitcases.dims_str(ok[n][2], ids)]
-    if all(n in ok for n in ("kg", "m", "s", "K", "°C")):
-        fixed("(1 kg + (sin(pi)) m)", ["A", "0"] + L("kg") + L("m"), None)          # approximate zero is not the permitted no-op
-        fixed("(1 kg + 0 m)", ["A", "1"] + L("kg") + L("m"), phys_of(ok["kg"][2]))
-        fixed("(1 kg - 0.0 s)", ["A", "1"] + L("kg") + L("s"), phys_of(ok["kg"][2]))
-        fixed("(0 kg + 1 m)", ["A", "0"] + L("kg") + L("m"), None)
+    need = ("lb", "m", "s", "K", "°C")
+    if not all(n in ok for n in need):
+        ctx.model_disagreements.append({"stream": "trees", "input": "fixed shapes", "impl": str([n for n in need if n not in ok]), "model": "", "spec": "unit names used by the fixed shapes are missing from the resolved table"})
+    else:
+        fixed("(1 lb + (sqrt 2 - sqrt 2) m)", ["A", "0"] + L("lb") + L("m"), None)          # an APPROXIMATE zero is not the permitted no-op
+        fixed("(1 lb + (sin(pi)) m)", ["A", "1"] + L("lb") + L("m"), phys_of(ok["lb"][2]))   # sin(pi) is an exact zero
+        fixed("(1 lb + 0 m)", ["A", "1"] + L("lb") + L("m"), phys_of(ok["lb"][2]))
+        fixed("(1 lb - 0.0 s)", ["A", "1"] + L("lb") + L("s"), phys_of(ok["lb"][2]))
+        fixed("(0 lb + 1 m)", ["A", "0"] + L("lb") + L("m"), None)
         fixed("((1 °C) (1 m) to K)", ["C", "M"] + L("°C") + L("m") + L("K"), None)
         fixed("((1 °C) (1 m) + 1 K)", ["A", "0", "M"] + L("°C") + L("m") + L("K"), None)
         fixed("(1 K + (1 °C) (1 m))", ["A", "0"] + L("K") + ["M"] + L("°C") + L("m"), None)
+        fixed("((1 °C) (1 K) to K)", ["C", "M"] + L("°C") + L("K") + L("K"), None)
+        fixed("(((2 °C) / (1 K)) to 1)", ["C", "D"] + L("°C") + L("K") + ["L", "-"], {})
         fixed("((2 m)^(1 m))", ["P", "1/1"] + L("m") + L("m"), None)
         fixed("((2 m)^((1 m) / (1 m)))", ["P", "1/1"] + L("m") + ["D"] + L("m") + L("m"), phys_of(ok["m"][2]))
-        fixed("((2 kg)^((4 m) / (2 m)))", ["P", "2/1"] + L("kg") + ["D"] + L("m") + L("m"), {"kilogram": F(2)})
+        fixed("((2 lb)^((4 m) / (2 m)))", ["P", "2/1"] + L("lb") + ["D"] + L("m") + L("m"), {"kilogram": F(2)})
         fixed("(2^(1 s))", ["P", "1/1", "L", "-"] + L("s"), None)
     exprs = ["@debug " + t.expr for t in trees]
     outs = ctx.run_lines_robust(h, ["eval"], exprs, env={"HARNESS_LINE_TIMEOUT_S": "20"})
